@@ -142,3 +142,49 @@ Definition nview_acc (a : nfa) (i : ist) : option Z :=
 Definition nview (a : nfa) : view :=
   {| v_start := fun _ _ => if wf_nfa a then to_ist (nstart a) else Bad;
      v_step := nview_step a; v_acc := nview_acc a; v_stop := fstop |}.
+
+(** ** equivalence classes (ecs.c): bytes of one class must be indistinguishable
+    for every transition of the NFA *)
+Definition ec_rep (ec : byte -> N) (al : list byte) (b : byte) : byte :=
+  match find (fun c => ec c =? ec b) al with Some c => c | None => b end.
+
+Definition ec_consistent (a : nfa) (ec : byte -> N) (al : list byte) : bool :=
+  forallb (fun nd => forallb (fun b => Bool.eqb (sym_has a (n_sym nd) b) (sym_has a (n_sym nd) (ec_rep ec al b))) al)
+          (n_nodes a).
+
+(** ** the DFA of dfa.c before table compression, as printed by [flex -T]:
+    transitions over equivalence-class numbers, one accepting number per state *)
+Record dfa := {
+  d_width : Z;          (* number of symbols + 1 *)
+  d_trans : arr;        (* entry  s * d_width + c  = target of state s on symbol c (absent: jam) *)
+  d_acc : arr;          (* entry s = accepting number of state s (absent: none) *)
+  d_ec : arr            (* entry b = symbol of byte b *)
+}.
+
+Definition dstep (d : dfa) (i : ist) (b : byte) : ist :=
+  match i with
+  | Bad => Bad
+  | Jam => Jam
+  | St s =>
+      match aget (d_ec d) (Z.of_N b) with
+      | Some c =>
+          if ((0 <? c) && (c <? d_width d))%Z then
+            match aget (d_trans d) (s * d_width d + c)%Z with
+            | Some t => if (0 <? t)%Z then St t else Jam
+            | None => Jam
+            end
+          else Bad
+      | None => Bad
+      end
+  end.
+
+Definition dacc (d : dfa) (i : ist) : option Z :=
+  match i with
+  | Bad => None
+  | Jam => Some 0%Z
+  | St s => match aget (d_acc d) s with Some z => Some z | None => Some 0%Z end
+  end.
+
+Definition dview (d : dfa) : view :=
+  {| v_start := fun sc bol => St (2 * sc + 1 + (if bol then 1 else 0))%Z;
+     v_step := dstep d; v_acc := dacc d; v_stop := fstop |}.
